@@ -321,7 +321,12 @@ def t_case(rng):
         e = t_bool(rng, d)
     elif r < 0.9:
         e = t_other(rng, min(d, 2))
-    elif r < 0.95:
+    elif r < 0.93:
+        # AST text beyond ASCII / Latin-1 / the BMP (what the input may contain)
+        u = _pick(rng, ['日本', 'x😀y', 'café', 'ｗide', 'Ωμέγα', 'áb'])
+        bind = {'u': repr(u)}
+        e = _pick(rng, ['len(u)', 'u + a', 'u[0]', '[u, n]', 'u.upper()', 'len(a) + n', 'sorted(u)', 'max(u, a)', 'a'])
+    elif r < 0.96:
         # AST keys that shadow builtins are ordinary names with the AST's value
         s = _pick(rng, ['open', 'print', 'eval', 'type', 'exit', 'len'])
         bind = {s: "'shadow'"}
@@ -335,3 +340,242 @@ def t_case(rng):
         e = e.replace('{X', '{' + x).replace('{Y', '{' + y)
         return {'expr': e, 'kind': 'interp', 'bind': {}, 'T': True}
     return {'expr': e, 'kind': 'T', 'bind': bind, 'T': True}
+
+
+# ------------------------------------------------------------------ NFKC spellings of identifiers
+# Python normalises identifiers to NFKC while parsing, so `a._＿class＿_` IS `a.__class__` although the
+# source text has no two adjacent ASCII underscores, `ｅｖａｌ` is `eval`, `ﬁlter` is `filter`.  Every
+# expression family is also emitted with identifiers re-spelled in NFKC-equivalent code points.
+import io          # noqa: E402
+import keyword     # noqa: E402
+import re          # noqa: E402
+import tokenize    # noqa: E402
+import unicodedata # noqa: E402
+
+
+def _build_nfkc_tables():
+    single, multi = {}, {}
+    ascii_ident = set('abcdefghijklmnopqrstuvwxyzABCDEFGHIJKLMNOPQRSTUVWXYZ0123456789_')
+    for cp in list(range(0x80, 0x10000)) + list(range(0x1D400, 0x1D800)):
+        ch = chr(cp)
+        try:
+            n = unicodedata.normalize('NFKC', ch)
+        except ValueError:
+            continue
+        if n == ch or not n or not set(n) <= ascii_ident:
+            continue
+        if not ('a' + ch).isidentifier() or unicodedata.normalize('NFKC', 'a' + ch + 'a') != 'a' + n + 'a':
+            continue
+        (single if len(n) == 1 else multi).setdefault(n, []).append(ch)
+    return single, multi
+
+
+NFKC_SINGLE, NFKC_MULTI = _build_nfkc_tables()
+NFKC_FAMILIES = {
+    'fullwidth': lambda ch: 0xFF00 <= ord(ch) <= 0xFF5E,
+    'math': lambda ch: 0x1D400 <= ord(ch) <= 0x1D7FF,
+    'compat': lambda ch: ord(ch) < 0xFF00,          # ª º ſ ⁿ ℓ ℂ Ⅰ ﹍ ﹎ ﹏ ︳ ︴ modifier/sub/superscript letters
+}
+NFKC_STYLES = ['fullwidth', 'math', 'compat', 'mixed', 'sparse', 'underscores', 'ligature', 'first-ascii-rest-wide']
+ID_RE = re.compile(r'[A-Za-z_][A-Za-z0-9_]*')
+NFKC_MODES = ['all', 'all', 'one', 'one-dunder', 'all-but-one', 'all-but-one-dunder', 'all+strings']
+
+
+def _equiv(rng, c, family):
+    cands = NFKC_SINGLE.get(c)
+    if not cands:
+        return c
+    if family in NFKC_FAMILIES:
+        pref = [x for x in cands if NFKC_FAMILIES[family](x)]
+        if pref:
+            cands = pref
+    return _pick(rng, cands)
+
+
+def spell_identifier(rng, name, style):
+    """an identifier that NFKC-normalises to ``name``; never two adjacent ASCII underscores"""
+    for _ in range(6):
+        out = []
+        i = 0
+        while i < len(name):
+            c = name[i]
+            if style == 'ligature' or (style == 'mixed' and rng.random() < 0.3):
+                hit = None
+                for k in (3, 2):
+                    seg = name[i:i + k]
+                    if len(seg) == k and seg in NFKC_MULTI and i > 0:
+                        hit = seg
+                        break
+                if hit:
+                    out.append(_pick(rng, NFKC_MULTI[hit]))
+                    i += len(hit)
+                    continue
+            if style == 'underscores' or style == 'ligature':
+                out.append(c)
+            elif style == 'sparse':
+                out.append(_equiv(rng, c, 'mixed') if rng.random() < 0.35 else c)
+            elif style == 'first-ascii-rest-wide':
+                out.append(c if i == 0 else _equiv(rng, c, 'fullwidth'))
+            else:
+                out.append(_equiv(rng, c, style))
+            i += 1
+        # no two adjacent ASCII low lines; the first character must stay a valid identifier start
+        for j in range(1, len(out)):
+            if out[j] == '_' and out[j - 1] == '_':
+                out[j] = _equiv(rng, '_', 'mixed' if style not in NFKC_FAMILIES else style)
+        if out and not out[0].isidentifier():
+            out[0] = name[0]
+            if len(out) > 1 and out[0] == '_' and out[1] == '_':
+                out[1] = _equiv(rng, '_', 'mixed')
+        v = ''.join(out)
+        if v != name and v.isidentifier() and unicodedata.normalize('NFKC', v) == name:
+            return v
+        style = 'mixed'
+    return name
+
+
+def _identifier_spans(text, strings):
+    """(start, end) of identifiers; ``strings``: also words inside string literals / invalid source"""
+    if not strings:
+        try:
+            starts = [0]
+            for line in text.splitlines(keepends=True):
+                starts.append(starts[-1] + len(line))
+            spans = []
+            for tok in tokenize.generate_tokens(io.StringIO(text).readline):
+                if tok.type == tokenize.NAME and tok.start[0] == tok.end[0]:
+                    s = starts[tok.start[0] - 1] + tok.start[1]
+                    e = starts[tok.end[0] - 1] + tok.end[1]
+                    if text[s:e] == tok.string and ID_RE.fullmatch(tok.string):
+                        spans.append((s, e))
+            return spans            # string literals stay as they are
+        except (tokenize.TokenError, SyntaxError, IndentationError, ValueError):
+            pass
+    return [m.span() for m in ID_RE.finditer(text)]
+
+
+def _is_dunderish(name):
+    return '__' in name
+
+
+def nfkc_variant(rng, text, mode=None, style=None):
+    """the same Python source with identifiers re-spelled -> (variant, mode, style) or None"""
+    mode = mode or _pick(rng, NFKC_MODES)
+    style = style or _pick(rng, NFKC_STYLES)
+    spans = [(s, e) for s, e in _identifier_spans(text, mode == 'all+strings')
+             if not keyword.iskeyword(text[s:e]) and (s == 0 or text[s - 1] not in '!\\')]
+    if not spans:
+        return None
+    dunders = [sp for sp in spans if _is_dunderish(text[sp[0]:sp[1]])]
+    if mode in ('all', 'all+strings'):
+        chosen = spans
+    elif mode == 'one':
+        chosen = [_pick(rng, spans)]
+    elif mode == 'one-dunder':
+        chosen = [_pick(rng, dunders or spans)]
+    else:
+        keep = _pick(rng, (dunders if mode == 'all-but-one-dunder' and dunders else spans))
+        chosen = [sp for sp in spans if sp != keep] or spans
+    chosen = set(chosen)
+    out, last = [], 0
+    for s, e in spans:
+        out.append(text[last:s])
+        name = text[s:e]
+        if (s, e) in chosen:
+            st = style
+            if _is_dunderish(name) and style in ('sparse', 'ligature') and rng.random() < 0.5:
+                st = 'underscores'
+            out.append(spell_identifier(rng, name, st))
+        else:
+            out.append(name)
+        last = e
+    out.append(text[last:])
+    v = ''.join(out)
+    if v == text:
+        return None
+    return v, mode, style
+
+
+def _interp_variant(rng, text):
+    """interpolation templates: only the expression part of each {field} is re-spelled"""
+    out, i, changed = [], 0, False
+    mode = style = None
+    while i < len(text):
+        j = text.find('{', i)
+        if j < 0:
+            break
+        k = text.find('}', j)
+        if k < 0:
+            break
+        field = text[j + 1:k]
+        depth, cut = 0, len(field)
+        for x, c in enumerate(field):
+            if c in '([':
+                depth += 1
+            elif c in ')]':
+                depth -= 1
+            elif depth == 0 and (c == ':' or (c == '!' and field[x + 1:x + 2] != '=')):
+                cut = x
+                break
+        r = nfkc_variant(rng, field[:cut], mode='all', style=style)
+        out.append(text[i:j + 1])
+        if r:
+            out.append(r[0] + field[cut:])
+            mode, style, changed = 'all', r[2], True
+        else:
+            out.append(field)
+        out.append('}')
+        i = k + 1
+    out.append(text[i:])
+    return (''.join(out), 'all', style) if changed else None
+
+
+DUNDER_EXPRS = [x for x in RISKY_ATOMS if '__' in x and '\\' not in x and '＿' not in x] + [
+    'a.__class__.__name__', 'len(a.__class__.__base__.__subclasses__())', 'n.__class__.__mro__[1]',
+    't.__class__.__base__', 'p.__class__.__init__.__globals__', 'a.__add__(a)', 'n.__abs__()', 't.__len__()',
+    'a.__doc__', 'a.__class__', 'p.__dict__', 'a.__getattribute__', 'len.__self__.__dict__', 'a.__class__.__class__',
+    'a.upper.__self__.__class__', 'sorted.__self__', "a.__class__.__dict__['upper']", 'n.__class__(2)',
+    '[a.__class__ for _ in t]', "f'{a.__class__}'", '{a.__class__}', 'v={a.__class__.__name__!r}',
+    'a.__class__ if n else n', '(a.__class__, n)[0]', 'repr(a.__class__)', 'max(t, key=n.__class__)',
+    "'{0}'.format(a.__class__)", 'a.__class__.__name__.upper()', 'a._private__', 'a.__x', 'p.__module__',
+]
+NFKC_SWEEP_FORMS = ['§', '§(a)', '§(p, a)', 'sorted(t, key=§)', "f'{§}'", '{§(a)}', '§.__self__', f"§('{TARGET}', 'w')"]
+
+
+def nfkc_case(rng):
+    """a case of any family with identifiers spelled in NFKC-equivalent code points; ``ascii`` keeps the
+    plain spelling (same Python expression)"""
+    r = rng.random()
+    if r < 0.22:
+        base = {'expr': _pick(rng, DUNDER_EXPRS), 'kind': 'attr', 'bind': {}, 'T': False}
+    elif r < 0.36:
+        base = {'expr': attr_chain(rng), 'kind': 'attr', 'bind': {}, 'T': False}
+    elif r < 0.48:
+        base = {'expr': compose(rng, rng.randrange(1, 3)), 'kind': 'compose', 'bind': {}, 'T': False}
+    elif r < 0.56:
+        base = fmt_case(rng)
+    elif r < 0.64:
+        base = shadow_case(rng)
+    elif r < 0.72:
+        base = {'expr': _pick(rng, NFKC_SWEEP_FORMS).replace('§', _pick(rng, BUILTIN_NAMES)), 'kind': 'sweep-place',
+                'bind': {}, 'T': False}
+    elif r < 0.78:
+        base = {'expr': strbuild(rng), 'kind': 'strbuild', 'bind': {}, 'T': False}
+    else:
+        base = t_case(rng)
+    text = base['expr']
+    v = None
+    for _ in range(5):
+        if base['kind'] == 'interp':
+            v = _interp_variant(rng, text)
+        elif base.get('T'):
+            v = nfkc_variant(rng, text, mode=_pick(rng, ['all', 'one', 'all-but-one']))
+        else:
+            v = nfkc_variant(rng, text)
+        if v:
+            break
+    case = dict(base)
+    case.pop('b', None)
+    if v:
+        case.update(expr=v[0], ascii=text, nfkc=f'{v[1]}/{v[2]}')
+    return case
